@@ -1,10 +1,10 @@
 package main
 
 import (
-	"os"
 	"fmt"
 	"go/constant"
 	"go/types"
+	"os"
 	"sort"
 	"strings"
 
@@ -756,19 +756,7 @@ func (fr *Frame) specCall(c *ECall, env *SpecEnv) Val {
 		if env.header == nil {
 			return fr.specErr("seen() outside loop invariant")
 		}
-		// the map iterator of this loop, or of the innermost enclosing loop that ranges over a map
-		var bestNx *ssa.Next
-		bestSize := 1 << 30
-		for _, li := range fr.loops {
-			if !li.blocks[env.header.Index] {
-				continue
-			}
-			for _, ins := range li.header.Instrs {
-				if nx, ok := ins.(*ssa.Next); ok && len(li.blocks) < bestSize {
-					bestNx, bestSize = nx, len(li.blocks)
-				}
-			}
-		}
+		bestNx := fr.loopIterator(env)
 		if bestNx != nil {
 			it := fr.scalar(fr.val(bestNx.Iter))
 			fc.regVar(hIter, arr2Sort("Bool"))
@@ -899,7 +887,23 @@ func (fr *Frame) specCall(c *ECall, env *SpecEnv) Val {
 			}
 		}
 		n.header = nil
-		return fr.evalSpec(p.Body, &n)
+		r := fr.evalSpec(p.Body, &n)
+		// a large integer-valued predicate (a formula such as the reconstructed Z-hat) gets a name: the definition
+		// is one fact, selected only for obligations that mention the name, instead of a term of several
+		// kilobytes in every fact that uses the value
+		if !r.IsAg && r.Typ != nil && sortOf(r.Typ) == "Int" && len(r.S) > 300 && !reBoundVar.MatchString(r.S) {
+			if fc.abbrev == nil {
+				fc.abbrev = map[string]string{}
+			}
+			c, ok := fc.abbrev[r.S]
+			if !ok {
+				c = fc.freshConst("pv_"+c0(p.Name), "Int")
+				fc.abbrev[r.S] = c
+				fc.permFact(sEq(c, r.S))
+			}
+			r.S = c
+		}
+		return r
 	}
 	// declared uninterpreted functions
 	if ar, ok := fc.eng.cs.Uninterp[c.Fn]; ok && ar == nargs {
@@ -922,6 +926,15 @@ func (fr *Frame) specCall(c *ECall, env *SpecEnv) Val {
 		return Val{S: sApp("u_"+c.Fn, as...), Typ: tBool}
 	}
 	return fr.specErr("unknown spec function %s/%d", c.Fn, nargs)
+}
+
+func c0(name string) string {
+	return strings.Map(func(r rune) rune {
+		if r >= 'a' && r <= 'z' || r >= 'A' && r <= 'Z' || r >= '0' && r <= '9' {
+			return r
+		}
+		return '_'
+	}, name)
 }
 
 func (fr *Frame) ptrTermOrSlice(v Val) string {
@@ -1052,15 +1065,151 @@ func splitSexpr(s string) []string {
 	return out
 }
 
+// foldShape: how the running index of a fold maps to the value of the bound variable. Index folds use the index
+// itself; the sequence form of a mapfold runs over the keys itkey(it, 0), itkey(it, 1), ... an iterator hands out.
+type foldShape struct {
+	suffix    string
+	extra     []string // further Int arguments of the fold function (the iterator)
+	probeOnly bool     // only find out which heaps the element reads
+	keyOf     func(j string) string
+	keyTyp    types.Type
+	lo, hi    string
+}
+
+// the map iterator of the loop an invariant belongs to, or of the innermost enclosing loop that ranges over a map
+func (fr *Frame) loopIterator(env *SpecEnv) *ssa.Next {
+	if env.header == nil {
+		return nil
+	}
+	var bestNx *ssa.Next
+	bestSize := 1 << 30
+	for _, li := range fr.loops {
+		if !li.blocks[env.header.Index] {
+			continue
+		}
+		for _, ins := range li.header.Instrs {
+			if nx, ok := ins.(*ssa.Next); ok && len(li.blocks) < bestSize {
+				bestNx, bestSize = nx, len(li.blocks)
+			}
+		}
+	}
+	return bestNx
+}
+
 // specFold: name(args..., lo, hi) = op over i in [lo,hi) of elem(args..., i), evaluated in the current state.
 // The SMT term is an uninterpreted function of the heap versions the element expression reads, the arguments and
 // the bounds; each created term comes with its one-step unfolding (empty range, and last element split off).
+//
+// A mapfold has two forms. name(args...) in a loop invariant is the fold over the keys the loop's map iterator has
+// handed out so far, in that order. name(args..., m) is the fold over the key set of the map m; it is an
+// uninterpreted function of the heaps, the arguments, the map and its key set, linked to the sequence form of every
+// iterator over m that has run to its end while the key set stayed the same (a map range visits every key exactly
+// once, and sums and products of integers do not depend on the order).
 func (fr *Frame) specFold(fd *Fold, c *ECall, env *SpecEnv) Val {
 	fc := fr.fc
 	np := len(fd.Params) - 1
-	if len(c.Args) != np+2 {
-		return fr.specErr("fold %s expects %d arguments", fd.Name, np+2)
+	st := fr.state(env)
+	if !fd.Keys {
+		if len(c.Args) != np+2 {
+			return fr.specErr("fold %s expects %d arguments", fd.Name, np+2)
+		}
+		lo := fr.scalar(fr.evalSpec(c.Args[np], env))
+		hi := fr.scalar(fr.evalSpec(c.Args[np+1], env))
+		return fr.foldCore(fd, c.Args[:np], env, foldShape{keyOf: func(j string) string { return j }, keyTyp: tInt, lo: lo, hi: hi})
 	}
+	if fd.Op == "mulmod" {
+		return fr.specErr("mapfold %s: mulmod is not order-independent", fd.Name)
+	}
+	seqShape := func(it string, info mapIterInfo) foldShape {
+		fc.regVar(hIterN, arrSort("Int"))
+		return foldShape{suffix: "_seq", extra: []string{it}, keyTyp: info.mt.Underlying().(*types.Map).Key(),
+			keyOf: func(j string) string { return sApp("itkey", it, j) }, lo: "0", hi: fc.rd(env.now, hIterN, it)}
+	}
+	switch len(c.Args) {
+	case np:
+		nx := fr.loopIterator(env)
+		if nx == nil {
+			return fr.specErr("mapfold %s without a map: only in the invariant of a loop that ranges over a map", fd.Name)
+		}
+		it := fr.scalar(fr.val(nx.Iter))
+		info, ok := fc.mapIters[it]
+		if !ok {
+			return fr.specErr("mapfold %s: unknown iterator", fd.Name)
+		}
+		return fr.foldCore(fd, c.Args[:np], env, seqShape(it, info))
+	case np + 1:
+		mv := fr.evalSpec(c.Args[np], env)
+		mt, ok := mv.Typ.Underlying().(*types.Map)
+		if !ok || sortOf(mt.Key()) != "Int" {
+			return fr.specErr("mapfold %s: last argument must be a map with integer-sorted keys", fd.Name)
+		}
+		m := fr.scalar(mv)
+		fr.regMap(mv.Typ)
+		prow := sSel(fc.get(st, heapMapP(mv.Typ)), m)
+		// heaps read by the element at an arbitrary key
+		kc := fc.freshConst("foldk", "Int")
+		probe := fr.foldCore(fd, c.Args[:np], env, foldShape{suffix: "_probe", keyOf: func(string) string { return kc }, keyTyp: mt.Key(), lo: "0", hi: "0", probeOnly: true})
+		_ = probe
+		hterms, sorts, argTerms, elemAt := fc.lastFoldHeaps, fc.lastFoldSorts, fc.lastFoldArgs, fc.lastFoldElemAt
+		fname := "folddom_" + fd.Name
+		key := "fun:" + fname
+		if !fc.declSet[key] {
+			fc.declSet[key] = true
+			fc.decls = append(fc.decls, fmt.Sprintf("(declare-fun %s (%s %s (Array Int Bool)) Int)", fname, strings.Join(sorts, " "), strings.TrimSpace(strings.Repeat("Int ", np+1))))
+			fc.trusted["spec mapfold "+fd.Name+": "+fd.Src+" (a map range hands out every key of an unmodified map exactly once; integer sums and products do not depend on the order)"] = true
+		}
+		all := append(append([]string{}, hterms...), argTerms...)
+		t := sApp(fname, append(all, m, prow)...)
+		if !reBoundVar.MatchString(t) && !fc.declSet["folddom:"+t] {
+			fc.declSet["folddom:"+t] = true
+			// congruence with the same fold in other heap states: over the same key set, either the element at
+			// some key differs or the folds are equal
+			ck := fname + "|" + strings.Join(argTerms, ",") + "|" + m
+			hkey := strings.Join(hterms, ",")
+			for _, prev := range fc.foldTerms[ck] {
+				if prev.heaps == hkey || len(prev.hlist) != len(hterms) {
+					continue
+				}
+				w := fc.freshConst("foldw", "Int")
+				e1 := prev.elemAt(w)
+				e2 := elemAt(w)
+				differs := sNot(sEq(e1, e2))
+				if ds := readDiffs(e1, prev.hlist, hterms); len(ds) > 0 && len(ds) <= 12 {
+					differs = sOr(ds...)
+				}
+				fc.addCandK(w, kKey)
+				fc.permFact(sImp(sEq(prev.hi, prow), sOr(sAnd(sSel(prow, w), differs), sEq(prev.term, t))))
+			}
+			if fc.foldTerms == nil {
+				fc.foldTerms = map[string][]foldRec{}
+			}
+			if len(fc.foldTerms[ck]) < 8 {
+				fc.foldTerms[ck] = append(fc.foldTerms[ck], foldRec{term: t, hi: prow, heaps: hkey, hlist: append([]string{}, hterms...), elemAt: elemAt})
+			}
+		}
+		if !reBoundVar.MatchString(t) {
+			for _, it := range sortedKeys(fc.mapIters) {
+				info := fc.mapIters[it]
+				if !types.Identical(info.mt, mv.Typ) {
+					continue
+				}
+				sh := seqShape(it, info)
+				if fc.declSet["foldlink:"+it+":"+sh.hi+":"+t] {
+					continue
+				}
+				fc.declSet["foldlink:"+it+":"+sh.hi+":"+t] = true
+				seq := fr.foldCore(fd, c.Args[:np], env, sh)
+				fc.permFact(sImp(sAnd(sApp("itdone", it), sEq(m, info.m), sEq(prow, info.mpRow)), sEq(seq.S, t)))
+			}
+		}
+		return Val{S: t, Typ: tInt}
+	}
+	return fr.specErr("mapfold %s expects %d or %d arguments", fd.Name, np, np+1)
+}
+
+func (fr *Frame) foldCore(fd *Fold, args []Expr, env *SpecEnv, sh foldShape) Val {
+	fc := fr.fc
+	np := len(fd.Params) - 1
 	benv := *env
 	benv.bound = map[string]Val{}
 	for k, v := range env.bound {
@@ -1069,10 +1218,12 @@ func (fr *Frame) specFold(fd *Fold, c *ECall, env *SpecEnv) Val {
 	benv.vars = map[string]Val{}
 	var argTerms []string
 	for i := 0; i < np; i++ {
-		v := fr.evalSpec(c.Args[i], env)
+		v := fr.evalSpec(args[i], env)
 		benv.bound[fd.Params[i]] = v
 		argTerms = append(argTerms, fr.scalar(v))
 	}
+	paramTerms := append([]string{}, argTerms...)
+	argTerms = append(argTerms, sh.extra...)
 	for _, pk := range fc.eng.pkgs {
 		if pk.PkgPath == fd.Pkg {
 			benv.pkg = pk.Types
@@ -1082,8 +1233,7 @@ func (fr *Frame) specFold(fd *Fold, c *ECall, env *SpecEnv) Val {
 	benv.nopol = true
 	benv.qs = nil
 	benv.sks = nil
-	lo := fr.scalar(fr.evalSpec(c.Args[np], env))
-	hi := fr.scalar(fr.evalSpec(c.Args[np+1], env))
+	lo, hi := sh.lo, sh.hi
 	ix := fd.Params[np]
 	elemAt := func(t string) string {
 		e2 := benv
@@ -1091,7 +1241,12 @@ func (fr *Frame) specFold(fd *Fold, c *ECall, env *SpecEnv) Val {
 		for k, v := range benv.bound {
 			e2.bound[k] = v
 		}
-		e2.bound[ix] = Val{S: t, Typ: tInt}
+		e2.bound[ix] = Val{S: sh.keyOf(t), Typ: sh.keyTyp}
+		// the size facts of bit lengths inside an element are not what a fold argument needs: the program's own
+		// terms carry them, and elements at witness positions in several heap states would multiply them
+		saveAux := fc.noAux
+		fc.noAux = sh.suffix != ""
+		defer func() { fc.noAux = saveAux }()
 		return fr.scalar(fr.evalSpec(fd.Elem, &e2))
 	}
 	// which heaps does the element expression read?
@@ -1104,6 +1259,14 @@ func (fr *Frame) specFold(fd *Fold, c *ECall, env *SpecEnv) Val {
 		e2 := benv
 		modTerm = fr.scalar(fr.evalSpec(fd.Mod, &e2))
 	}
+	unit := "1"
+	if fd.Op == "add" {
+		unit = "0"
+	}
+	if fd.Init != nil {
+		e2 := benv
+		unit = fr.scalar(fr.evalSpec(fd.Init, &e2))
+	}
 	fc.recording = saved
 	seen := map[string]bool{}
 	var heaps []string
@@ -1114,7 +1277,7 @@ func (fr *Frame) specFold(fd *Fold, c *ECall, env *SpecEnv) Val {
 		}
 	}
 	sort.Strings(heaps)
-	fname := "fold_" + fd.Name
+	fname := "fold_" + fd.Name + sh.suffix
 	var sorts []string
 	var hterms []string
 	st := fr.state(env)
@@ -1122,10 +1285,26 @@ func (fr *Frame) specFold(fd *Fold, c *ECall, env *SpecEnv) Val {
 		sorts = append(sorts, fc.sortOfVar(h))
 		hterms = append(hterms, fc.get(st, h))
 	}
+	if sh.probeOnly {
+		fc.lastFoldHeaps, fc.lastFoldSorts, fc.lastFoldArgs = hterms, sorts, paramTerms
+		fc.lastFoldElemAt = func(k string) string {
+			e2 := benv
+			e2.bound = map[string]Val{}
+			for kk, v := range benv.bound {
+				e2.bound[kk] = v
+			}
+			e2.bound[ix] = Val{S: k, Typ: sh.keyTyp}
+			saveAux := fc.noAux
+			fc.noAux = true
+			defer func() { fc.noAux = saveAux }()
+			return fr.scalar(fr.evalSpec(fd.Elem, &e2))
+		}
+		return Val{S: "0", Typ: tInt}
+	}
 	key := "fun:" + fname
 	if !fc.declSet[key] {
 		fc.declSet[key] = true
-		fc.decls = append(fc.decls, fmt.Sprintf("(declare-fun %s (%s %s) Int)", fname, strings.Join(sorts, " "), strings.TrimSpace(strings.Repeat("Int ", np+2))))
+		fc.decls = append(fc.decls, fmt.Sprintf("(declare-fun %s (%s %s) Int)", fname, strings.Join(sorts, " "), strings.TrimSpace(strings.Repeat("Int ", len(argTerms)+2))))
 		fc.trusted["spec fold "+fd.Name+": "+fd.Src] = true
 	}
 	mk := func(a, b string) string {
@@ -1161,8 +1340,15 @@ func (fr *Frame) specFold(fd *Fold, c *ECall, env *SpecEnv) Val {
 		if fc.foldTerms == nil {
 			fc.foldTerms = map[string][]foldRec{}
 		}
-		if len(fc.foldTerms[ck]) < 8 {
-			fc.foldTerms[ck] = append(fc.foldTerms[ck], foldRec{term: term, lo: lo, hi: hiTerm, heaps: hkey, hlist: append([]string{}, hterms...), elemAt: elemAt})
+		rec := foldRec{term: term, lo: lo, hi: hiTerm, heaps: hkey, hlist: append([]string{}, hterms...), elemAt: elemAt}
+		if sh.suffix != "" {
+			// folds over iteration sequences are compared with the most recent states only
+			fc.foldTerms[ck] = append(fc.foldTerms[ck], rec)
+			if n := len(fc.foldTerms[ck]); n > 3 {
+				fc.foldTerms[ck] = fc.foldTerms[ck][n-3:]
+			}
+		} else if len(fc.foldTerms[ck]) < 8 {
+			fc.foldTerms[ck] = append(fc.foldTerms[ck], rec)
 		}
 	}
 	register(t, hi)
@@ -1193,7 +1379,6 @@ func (fr *Frame) specFold(fd *Fold, c *ECall, env *SpecEnv) Val {
 	}
 	if !reBoundVar.MatchString(t) && !fc.declSet["foldfact:"+t] {
 		fc.declSet["foldfact:"+t] = true
-		unit := "1"
 		var step string
 		prev := mk(lo, sApp("-", hi, "1"))
 		if fd.Op == "mul" {
@@ -1202,7 +1387,6 @@ func (fr *Frame) specFold(fd *Fold, c *ECall, env *SpecEnv) Val {
 			// product reduced at every step, as the code computes it: r = (r * elem) mod m
 			step = fr.divTerm("mod", fr.mulTerm(prev, last), modTerm)
 		} else {
-			unit = "0"
 			step = sApp("+", prev, last)
 		}
 		fc.permFact(sAnd(sImp(sApp(">=", lo, hi), sEq(t, unit)), sImp(sApp("<", lo, hi), sEq(t, step))))
